@@ -274,6 +274,19 @@ def _behaviour_slice(args):
             c = lib.cps(s)
             lines.append(f"ends {idx[key]} {i}" + ((" " + c) if c else ""))
             expect.append((ns, rule.name, s, i, py))
+        # one LONG input for every fifth rule (a pumped sentence, hundreds of characters): against the reference set
+        # semantics of the same reading (the model engine builds every tree and is too slow for these)
+        if j % 5 == 0 and cands and cands[0]:
+            base = cands[0]
+            kk = rng.randrange(len(base))
+            s = base[:kk] + base[kk] * rng.randint(270, 420) + base[kk:]
+            import engine_corr as ec
+            py = ec.with_budget(ec.CASE_BUDGET_S, lambda: lib.py_lparse(P, rule, s, 0, full=False), None)
+            # "recursion": the pumped character nests a recursive rule hundreds of levels deep - the interpreter's recursion
+            # limit is a resource limit outside the model (DESIGN 12.3a), not comparable
+            if py is not None and py != "recursion":
+                lines.append(f"refends {idx[key]} 0 " + lib.cps(s))
+                expect.append((ns, rule.name, s, 0, py))
     out = lib.run_driver(lines)
     assert out[0] == "grammar-ok", out[0]
     return expect, out[1:], nrules
